@@ -381,6 +381,8 @@ def gen_scenario(rng: random.Random, P: Profile, name: str) -> Scn:
         scn.decl_style = "spaced"
     elif r < 0.4:
         scn.decl_style = "eventobj"
+    elif r < 0.5:
+        scn.decl_style = "eventobj2"
     if rng.random() < P.p_state_field:
         scn.state_field = rng.choice(["status", "st8", "_s", "current"])
     return scn
